@@ -596,6 +596,8 @@ def gen_dataset(rng, n_inputs=None, with_clim=None, missing=None, big=False, kin
             fields["q@" + xr(q)] = arr("q", rng3)
         # ensemble sizes may differ between the inputs (rarely no members at all)
         m_here = nmem if ("e" in force or rng3.random() < 0.7) else rng3.choice([0, 1, 2, 3])
+        if "e" not in kinds:
+            m_here = 0                      # a caller that excludes the kind gets no members at all
         for k in range(m_here):
             fields["e@%d" % k] = arr("e", rng3)
         if "aux" in kinds and ("aux" in force or rng3.random() < 0.9):
